@@ -31,11 +31,23 @@ theorem postProd_frame (tid : Tid) (t : PThread) (q' : Queue.Thread) :
   unfold postProd enterNext
   cases t.pend <;> (repeat' split) <;> simp
 
+theorem afterPull_more (tid : Tid) (s : Shared) (t : PThread) (r : PullRes) :
+    (afterPull F tid s t r).2.more = t.more := by
+  unfold afterPull failPull
+  split
+  · simp
+  · simp
+  · split <;> simp
+
+theorem postProd_more (tid : Tid) (t : PThread) (q' : Queue.Thread) : (postProd tid t q').more = t.more := by
+  unfold postProd enterNext
+  cases t.pend <;> (repeat' split) <;> simp
+
 /-- the part of the configuration that a step leaves alone -/
 theorem step_frame {c c' : Cfg} {tid : Tid} {alt : Bool} {lbl : String} {t : PThread}
     (ht : c.ths[tid]? = some t) (hk : StepKind F c tid alt t lbl c') :
     ∃ t', c'.ths = c.ths.set tid t' ∧ t'.isProd = t.isProd ∧ t'.sid = t.sid ∧ t'.useLock = t.useLock ∧
-      (t.isProd = true → retOf t' = retOf t) ∧ c'.inputs.length = c.inputs.length ∧
+      (t.isProd = true → retsT t' = retsT t) ∧ c'.inputs.length = c.inputs.length ∧
       c'.numSteps = c.numSteps ∧ c'.stopOnEnd = c.stopOnEnd ∧ c'.maxWorkers = c.maxWorkers := by
   cases hk with
   | pstart => exact ⟨_, rfl, rfl, rfl, rfl, fun _ => rfl, rfl, rfl, rfl, rfl⟩
@@ -45,16 +57,16 @@ theorem step_frame {c c' : Cfg} {tid : Tid} {alt : Bool} {lbl : String} {t : PTh
     simp only [pull]; split <;> simp
   | inextU =>
     have h := afterPull_frame (F := F) tid c.sh t (pull c.inputs t.sid).1
-    refine ⟨_, rfl, h.1, h.2.1, h.2.2.1, fun _ => by simp [retOf, h.2.2.2.1], ?_, rfl, rfl, rfl⟩
+    refine ⟨_, rfl, h.1, h.2.1, h.2.2.1, fun _ => by simp [retsT, retOf, h.2.2.2.1, afterPull_more], ?_, rfl, rfl, rfl⟩
     simp only [pull]; split <;> simp
   | irel =>
     have h := afterPull_frame (F := F) tid c.sh t t.hand
-    exact ⟨_, rfl, h.1, h.2.1, h.2.2.1, fun _ => by simp [retOf, h.2.2.2.1], rfl, rfl, rfl, rfl⟩
+    exact ⟨_, rfl, h.1, h.2.1, h.2.2.1, fun _ => by simp [retsT, retOf, h.2.2.2.1, afterPull_more], rfl, rfl, rfl, rfl⟩
   | @pq lbl s' q' _ _ _ hne hst =>
     have h := postProd_frame tid t q'
     have hc := stepThread_ctl lbl s' q' hst hne
     refine ⟨_, rfl, h.1, h.2.1, h.2.2.1, fun _ => ?_, rfl, rfl, rfl, rfl⟩
-    simp [retOf, h.2.2.2.1, hc.2.2.2.2.2.2.2.2.2.1]
+    simp [retsT, retOf, h.2.2.2.1, hc.2.2.2.2.2.2.2.2.2.1, postProd_more]
   | cboot0 hp =>
     refine ⟨_, rfl, ?_, ?_, ?_, fun h => by simp [hp] at h, rfl, rfl, rfl, rfl⟩ <;>
       (unfold beginIter; split <;> rfl)
